@@ -45,6 +45,12 @@ fn worlds() -> Vec<Items> {
         vec![(TypeId::Uuid(u2()), 3, vec![1, 2, 3]), (TypeId::Ordinal(2), 9, vec![4])],
         vec![(TypeId::Ordinal(2), 9, big), (TypeId::Ordinal(1), 0, vec![0, 0])],
         vec![(TypeId::Uuid(u1()), 3, vec![2]), (TypeId::Uuid(u2()), 4, vec![1, 2, 3])],
+        // 6, 7, 8: different worlds with the same checksum (two items swap their values, one
+        // item changes its id) - the checksum cannot tell them apart, so a delta applied to
+        // the wrong base is accepted unless the tick bookkeeping is right
+        vec![(TypeId::Ordinal(1), 0, vec![5, 6]), (TypeId::Ordinal(1), 1, vec![7, 8])],
+        vec![(TypeId::Ordinal(1), 0, vec![7, 8]), (TypeId::Ordinal(1), 1, vec![5, 6])],
+        vec![(TypeId::Ordinal(1), 0, vec![5, 6]), (TypeId::Ordinal(1), 2, vec![7, 8])],
     ]
 }
 
@@ -462,11 +468,14 @@ fn main() {
             Cfg { worlds: vec![1, 2, 4], ticks: 3, drops: 1, dups: 0, acks: 2, cap: 4 },
             Cfg { worlds: vec![1, 4], ticks: 2, drops: 1, dups: 1, acks: 2, cap: 4 },
             Cfg { worlds: vec![0, 2, 3, 5], ticks: 3, drops: 1, dups: 0, acks: 2, cap: 4 },
+            Cfg { worlds: vec![6, 7, 8], ticks: 3, drops: 0, dups: 1, acks: 2, cap: 4 },
         ],
         Tier::Thorough => vec![
             Cfg { worlds: vec![0, 1, 2, 4], ticks: 4, drops: 2, dups: 1, acks: 3, cap: 4 },
             Cfg { worlds: vec![1, 2, 3, 5], ticks: 4, drops: 1, dups: 1, acks: 3, cap: 4 },
             Cfg { worlds: vec![1, 4], ticks: 5, drops: 2, dups: 1, acks: 3, cap: 5 },
+            Cfg { worlds: vec![6, 7, 8], ticks: 4, drops: 1, dups: 1, acks: 3, cap: 4 },
+            Cfg { worlds: vec![1, 6, 7], ticks: 5, drops: 0, dups: 1, acks: 3, cap: 4 },
         ],
     };
     let mut total_states = 0u64;
@@ -534,7 +543,7 @@ fn main() {
     run.assume("the state key of the real Storage/Manager objects is the hash of the complete history of operations applied to each (they are deterministic functions of it); states are therefore merged only when both objects have identical histories and the channels/budgets agree - an over-fine key, which costs states but cannot hide any");
     run.assume("the sender follows the storage API exactly as server/src/main.rs does (new_builder, add, finish, add_snap, Delta::write, delta_chunks); the receiver acknowledges ack_tick() or -1");
     run.finish(
-        "explicit-state exploration (stateright BFS) of a real sender Storage and a real receiver Manager joined by lossy/duplicating/reordering channels for snapshot messages and acknowledgements; worlds include ordinal items, two UUID types of different sizes and a 300-word item that forces a multi-part transfer; whenever the receiver accepts a tick its snapshot equals the sender's through items() and item(type,id); on error the acknowledged tick does not move to that tick; nothing panics",
+        "explicit-state exploration (stateright BFS) of a real sender Storage and a real receiver Manager joined by lossy/duplicating/reordering channels for snapshot messages and acknowledgements; worlds include ordinal items, two UUID types of different sizes a 300-word item that forces a multi-part transfer, and three different worlds with equal checksums; whenever the receiver accepts a tick its snapshot equals the sender's through items() and item(type,id); on error the acknowledged tick does not move to that tick; nothing panics",
         true,
     );
 }
